@@ -144,3 +144,32 @@ pub async fn drive<T, F: Future<Output = T>>(idle: &Idle, fut: F, mut on_idle: i
         }
     }
 }
+
+/// Like `drive`, for futures that may be dropped (no scope inside): on `Stuck` the future is dropped.
+pub async fn drive_drop<T, F: Future<Output = T>>(idle: &Idle, fut: F, mut on_idle: impl FnMut(u32) -> bool) -> Driven<T> {
+    let mut fut = Box::pin(fut);
+    let mut k = 0;
+    idle.flag.store(false, SeqCst);
+    loop {
+        let step = std::future::poll_fn(|cx| {
+            if let Poll::Ready(r) = fut.as_mut().poll(cx) {
+                return Poll::Ready(Some(r));
+            }
+            if idle.flag.swap(false, SeqCst) {
+                return Poll::Ready(None);
+            }
+            *idle.waker.lock().unwrap() = Some(cx.waker().clone());
+            Poll::Pending
+        })
+        .await;
+        match step {
+            Some(r) => return Driven::Done(r),
+            None => {
+                k += 1;
+                if !on_idle(k) {
+                    return Driven::Stuck;
+                }
+            }
+        }
+    }
+}
